@@ -33,7 +33,7 @@ func init() {
 		Level:     "exploration",
 		Technique: "decision-table runtime monitor: reference model of the admission rules vs the error class of every Append, the query result after Commit and the rejection/appended counter deltas",
 		LevelText: "A model written from the property statement (appendable window max(headMaxT−chunkRange/2, minValidTime) and out-of-order window frozen when the appender is created – at its first Append on a never-initialised head –, per series the newest in-order sample with type and value, bit-identical re-append = no-op, commit replays the accepted samples per series in append order under the same frozen windows) predicts for every Append the error class (nil / out-of-bounds / out-of-order / too-old / duplicate), after every Commit/Rollback the exact stored set (full-range query) and the deltas of prometheus_tsdb_{out_of_order,too_old,out_of_bound}_samples_total and head_samples_appended_total. Inputs: cases 0–1599 enumerate ALL 2-append transactions over a 5-point time grid (below both windows / below the appendable window inside the OOO window / newest−1 / newest / newest+1) × 4 value kinds (float, int histogram, float histogram, StaleNaN) × {Appender, AppenderV2} × OOO window {0, >0}; the other cases are generated: 1–3 series, 1–4 transactions of 1–8 appends (sometimes two interleaved appenders, sometimes rolled back, sometimes a DB.Compact between transactions), timestamps around every window edge, equal and different values at equal timestamps, staleness markers of every type, SetOptions{DiscardOutOfOrder} / AOptions{RejectOutOfOrder}, isolation on/off, fresh (never initialised) heads. The model's window is cross-checked against Head.AppendableMinValidTime(). Held on the observed transactions only.",
-		LevelNote: "Where the statement leaves the class open the model accepts every class it allows and follows the observed one: (a) reject option + sample older than the OOO window: too-old or out-of-order; (b) reject option on v1 AppendHistogram (not in the interface docs): rejected or accepted; (c) a sample at the timestamp of the newest in-order sample that lies below the appendable window: window rule or duplicate rule; (d) staleness markers compared across sample types (float marker vs histogram series and the reverse): identical or different; (e) a sample that becomes out-of-order only at commit while the reject option is set: stored or dropped. Cross-series commit order is not checked. Counters are only compared for transactions without such open cases. Bit-identical histograms are produced as copies of one object (no layout-only variants).",
+		LevelNote: "Where the statement leaves the class open the model accepts every class it allows and follows the observed one: (a) reject option + sample older than the OOO window: too-old or out-of-order; (b) reject option on v1 AppendHistogram (not in the interface docs): rejected or accepted; (c) a sample at the timestamp of the newest in-order sample that lies below the appendable window: window rule or duplicate rule; (d) staleness markers compared across sample types (float marker vs histogram series and the reverse): identical or different; (e) a sample that becomes out-of-order only at commit while the reject option is set: stored or dropped; (f) after a transaction with the known marker-reorder pattern, whatever a reordered replay would have stored at that transaction's timestamps is allowed-not-required (its effect can stay hidden until a compaction). Cross-series commit order is not checked. Counters are only compared for transactions without such open cases. Bit-identical histograms are produced as copies of one object (no layout-only variants).",
 		DesignRef: "DESIGN.md §5 C02",
 		Rule:      "case = one transaction set against a fresh DB; non-trivial iff ≥1 Append verdict was predicted with a single allowed class and ≥1 commit was followed by a stored-set comparison with ≥1 sample; distinct by (config, rendered append list) hash",
 		Cases: func(variant string, tier core.Tier) int {
@@ -602,13 +602,36 @@ func (h *harness) end(t *tx, rollback bool) bool {
 			h.c.Violatef("operation-failed:Commit", "config {%s}: Commit: %v\nhistory: %s", h.cfg, err, h.history())
 			return false
 		}
-		if len(markerReorders(t.am.accepted)) > 0 {
+		alts := markerReorders(t.am.accepted)
+		if len(alts) > 0 {
 			t.am.open = true // counters: the order in which such a marker is replayed is a known deviation
 		}
 		base := h.m.clone()
+		defer func() {
+			// Known deviation (float marker replayed behind later samples of its series): its effect
+			// can stay invisible until a compaction merges an out-of-order copy.  Whatever any such
+			// reordered replay would have stored at the timestamps of this transaction is allowed,
+			// not required, from now on.
+			for _, alt := range alts {
+				m2 := base.clone()
+				m2.commit(t.am.cloneWith(alt))
+				for _, p := range alt {
+					k := h.m.labels[p.series].String()
+					for _, src := range []tsdbx.Expect{m2.stored, m2.optional} {
+						for v := range src[k][p.t] {
+							if h.m.stored[k][p.t] != nil {
+								h.m.stored.Add(k, p.t, v)
+							} else {
+								h.m.optional.Add(k, p.t, v)
+							}
+						}
+					}
+				}
+			}
+		}()
 		h.m.commit(t.am)
 		if diff := h.diffStored(h.m); diff != "" {
-			for _, alt := range markerReorders(t.am.accepted) {
+			for _, alt := range alts {
 				m2, am2 := base.clone(), t.am.cloneWith(alt)
 				m2.commit(am2)
 				if h.diffStored(m2) == "" {
